@@ -413,7 +413,7 @@ def main(argv=None):
                             illformed_cases=stats["illformed"], corpus_cases=ncorpus,
                             input_distribution=dict(buckets=stats["buckets"], observation_kinds=stats["obs_kinds"]),
                             known_findings_hit=known_hit, forbidden_tokens=gate["forbidden"],
-                            extraction_cross_check=dict(cases_evaluated_in_coq=cross["cases"], agree=cross["agree"], note=(cross["log"][-200:] if not cross["agree"] else ("vm_compute of Dispatch.run on these cases equals the extracted driver's output" if cross["cases"] else "runs in the thorough tier (and with --cross) only")),
+                            extraction_cross_check=dict(cases_evaluated_in_coq=cross["cases"], agree=cross["agree"], note=(cross["log"][-200:] if not cross["agree"] else ("vm_compute of Dispatch.run on these cases equals the extracted driver's output" if cross["cases"] else "runs in the thorough tier (and with --cross) only"))),
                             modelled_not_verified=getattr(mod, "MODELLED", "")),
               assumptions=tb, wall_s=round(time.time() - t0, 1), violations=len(violations))
     if not a.no_gate and not a.n:      # development runs (--no-gate / --n) never overwrite the evidence of a full run
